@@ -717,3 +717,56 @@ for _s in SUITES:
 def _o():
     from fractions import Fraction
     return (I("py_ecc.bls").G2ProofOfPossession.PopProve, [Fraction(LIT["sk1"])], {})
+
+
+# ------------------------------------------------------------------ field classes derived from an already used concrete class
+_SUBCLS = {}
+
+
+def _subclasses(fam):
+    """module-level (persistent) classes: A over GF(7)[u]/(u^2+1), B = subclass of A over GF(11)"""
+    if fam not in _SUBCLS:
+        M = I("py_ecc.fields.field_elements" if fam == "ref" else "py_ecc.fields.optimized_field_elements")
+        A = type("C20_A_%s" % fam, (M.FQ2,), {"field_modulus": 7, "FQ2_MODULUS_COEFFS": (1, 0)})
+        Bc = type("C20_B_%s" % fam, (A,), {"field_modulus": 11, "FQ2_MODULUS_COEFFS": (1, 0)})
+        _SUBCLS[fam] = (A, Bc)
+    return _SUBCLS[fam]
+
+
+for _fam in ("ref", "opt"):
+    def _mk6(fam):
+        @op("derived-class:parent-used:%s" % fam, 0)
+        def _a():
+            def f():
+                A, _B = _subclasses(fam)
+                x, y = A([3, 4]), A([5, 6])
+                return (x * y, x + y, x.inv(), x / y)
+            return (f, [], {})
+
+        @op("derived-class:child-with-other-prime-used:%s" % fam, 0)
+        def _b():
+            def f():
+                _A, Bc = _subclasses(fam)
+                x, y = Bc([3, 4]), Bc([9, 10])
+                return (x * y, x + y, x.inv(), x / y, x ** 5)
+            return (f, [], {})
+    _mk6(_fam)
+
+
+# ------------------------------------------------------------------ equal arguments, different object histories (self-checking)
+@op("INVARIANT:sgn0-of-results-independent-of-operand-memo", 0)
+def _o():
+    """the same expression on an element whose sgn0 was already read and on a freshly built equal
+    element: results (incl. their sgn0) must be equal"""
+    def f():
+        out = []
+        for fam in ("bn_opt", "bls_opt"):
+            for kind, v in (("FQ2", [5, 7]), ("FQ2", [0, 3]), ("FQ12", list(range(1, 13)))):
+                C = _F(fam, kind)
+                used, fresh = C(list(v)), C(list(v))
+                _ = used.sgn0
+                for g in (lambda e: e * 2, lambda e: 3 * e, lambda e: -e, lambda e: e + e, lambda e: e * e, lambda e: e / 2):
+                    a, b = g(used), g(fresh)
+                    out.append(a == b and a.sgn0 == b.sgn0)
+        return ("C20-INVARIANT", all(out))
+    return (f, [], {})
